@@ -36,18 +36,36 @@ struct Cur {
 }
 
 /// Run `f` (which drives the store in `dir`) with a snapshot taken before every mutating call of this thread.
+/// Calls that write a blob in place: opening for writing, writing, truncating a file at blob level under cas/
+/// (C06: "a blob is never created empty, written, truncated or modified in place"). Filled by `with_snapshots`.
+pub static IN_PLACE: Mutex<Vec<String>> = Mutex::new(Vec::new());
+/// When k > 0: the k-th rename into cas/ fails with EXDEV ("crosses devices"), as if a shard directory were a mount point.
+pub static EXDEV_AT: std::sync::atomic::AtomicU64 = std::sync::atomic::AtomicU64::new(0);
+
 pub fn with_snapshots<T>(dir: &Path, cur: Arc<Mutex<(usize, Option<usize>)>>, f: impl FnOnce() -> T) -> (T, Vec<Snap>) {
     let snaps: Arc<Mutex<Vec<Snap>>> = Arc::new(Mutex::new(Vec::new()));
     let s2 = snaps.clone();
     let d2 = dir.to_path_buf();
     let c2 = cur.clone();
+    let renames = Arc::new(std::sync::atomic::AtomicU64::new(0));
     shim::arm(
         dir,
         Arc::new(move |ev, ph| {
             if let Phase::Pre = ph {
                 if ev.mutating {
+                    use crate::shim::Kind;
+                    let blob_level = ev.rel.starts_with("cas/") && ev.rel.matches('/').count() >= 3;
+                    if blob_level && matches!(ev.kind, Kind::Open | Kind::Write | Kind::Pwrite | Kind::Truncate | Kind::Ftruncate | Kind::Fallocate | Kind::CopyRange | Kind::Sendfile) {
+                        IN_PLACE.lock().unwrap().push(ev.show());
+                    }
                     let (acked, inflight) = *c2.lock().unwrap();
                     s2.lock().unwrap().push(Snap { image: Image::load(&d2), acked, inflight, site: ev.site(), call: ev.show() });
+                    let k = EXDEV_AT.load(std::sync::atomic::Ordering::Relaxed);
+                    if k > 0 && ev.kind == Kind::Rename && ev.rel2.as_deref().map_or(false, |p| p.starts_with("cas/")) {
+                        if renames.fetch_add(1, std::sync::atomic::Ordering::Relaxed) + 1 == k {
+                            return libc::EXDEV;
+                        }
+                    }
                 }
             }
             0
@@ -415,6 +433,7 @@ pub fn case_json<K: HKey>(cfg: &Cfg, prefix: &[Op], opsq: &[Op], cut: usize, max
 /// Explore every cut of one history (or only `only_cut`).
 pub fn run_case<K: HKey>(cfg: &Cfg, prefix: &[Op], opsq: &[Op], max_nest: usize, only_cut: Option<usize>, res: &mut WorkerResult, verbose: bool) -> Vec<Violation> {
     let dir = util::fresh_dir("hist");
+    IN_PLACE.lock().unwrap().clear();
     let hist = run_history::<K>(&dir, cfg, prefix, opsq);
     util::rm_rf(&dir);
     let mut vs = Vec::new();
@@ -428,6 +447,10 @@ pub fn run_case<K: HKey>(cfg: &Cfg, prefix: &[Op], opsq: &[Op], max_nest: usize,
     }
     let ctx = Ctx { cfg, universe: &universe, max_nest, verify_too: false };
     if let Some(e) = &hist.error {
+        if EXDEV_AT.load(std::sync::atomic::Ordering::Relaxed) > 0 {
+            // the injected EXDEV made the put fail, as it should; the in-place scan above is the oracle of this plan
+            return vs_exdev(cfg, prefix, opsq, max_nest);
+        }
         let mut v = Violation::new(&["C03"], "history-op-failed", format!("[{} {}] {}: {e}", K::NAME, cfg.show(), ops::show_seq::<K>(opsq)));
         v.replay = case_json::<K>(cfg, prefix, opsq, 0, max_nest);
         vs.push(v);
@@ -435,6 +458,12 @@ pub fn run_case<K: HKey>(cfg: &Cfg, prefix: &[Op], opsq: &[Op], max_nest: usize,
     }
     res.count("histories", 1);
     res.count("cuts", hist.snaps.len() as u64);
+    let in_place = std::mem::take(&mut *IN_PLACE.lock().unwrap());
+    if !in_place.is_empty() {
+        let mut v = Violation::new(&["C06"], "cas-written-in-place", format!("[{} {}] prefix `{}` history `{}`: a file under cas/ was opened for writing / written / truncated in place: {:?}", K::NAME, cfg.show(), ops::show_seq::<K>(prefix), ops::show_seq::<K>(opsq), &in_place[..in_place.len().min(4)]));
+        v.replay = case_json::<K>(cfg, prefix, opsq, 0, max_nest);
+        vs.push(v);
+    }
     let mut seen: BTreeMap<u64, [u8; 32]> = BTreeMap::new();
     let mut done: Vec<(usize, Option<usize>, &Image)> = Vec::new();
     for (ci, s) in hist.snaps.iter().enumerate() {
@@ -472,6 +501,19 @@ pub fn run_case<K: HKey>(cfg: &Cfg, prefix: &[Op], opsq: &[Op], max_nest: usize,
         }
     }
     vs
+}
+
+fn vs_exdev(cfg: &Cfg, prefix: &[Op], opsq: &[Op], max_nest: usize) -> Vec<Violation> {
+    let in_place = std::mem::take(&mut *IN_PLACE.lock().unwrap());
+    if in_place.is_empty() {
+        return vec![];
+    }
+    let mut v = Violation::new(&["C06"], "cas-written-in-place", format!("[{}] prefix `{}` history `{}` with a rename into cas/ failing with EXDEV: a file under cas/ was written in place: {:?}", cfg.show(), ops::show_seq::<String>(prefix), ops::show_seq::<String>(opsq), &in_place[..in_place.len().min(4)]));
+    v.sig = "cas-written-in-place|exdev".into();
+    let mut c = case_json::<String>(cfg, prefix, opsq, 0, max_nest);
+    c["exdev_at"] = json!(EXDEV_AT.load(std::sync::atomic::Ordering::Relaxed));
+    v.replay = c;
+    vec![v]
 }
 
 pub fn op_class(op: &Op) -> &'static str {
@@ -615,9 +657,112 @@ pub fn validate_by_killing(cfg: &Cfg, opsq: &[Op], res: &mut WorkerResult) {
     }
 }
 
+/// A range removal over MANY keys is one operation (C03): `nkeys` keys sharing one blob, then `remove_range` over all or most
+/// of them, cut at every mutating call; the recovered store must hold either all keys or none of the range.
+pub fn many_keys_case(nkeys: usize, partial: bool, cfg: &Cfg, only_cut: Option<usize>, res: &mut WorkerResult) -> Vec<Violation> {
+    use cassadilia::Cas;
+    let mut vs = Vec::new();
+    let dir = util::fresh_dir("many");
+    let key = |i: usize| format!("k{i:06}");
+    {
+        let cas = real::open_cas::<String>(&dir, &cfg.config()).expect("open");
+        for i in 0..nkeys {
+            real::put_chunks(&cas, key(i), &[b"xx"], true).expect("put");
+        }
+    }
+    let (lo, hi) = if partial { (nkeys / 10, nkeys - nkeys / 10) } else { (0, nkeys) };
+    let cur = Arc::new(Mutex::new((0usize, None)));
+    let c2 = cur.clone();
+    let (r, snaps) = with_snapshots(&dir, cur, || -> Result<usize, String> {
+        let cas: Cas<String> = real::open_cas::<String>(&dir, &cfg.config())?;
+        *c2.lock().unwrap() = (0, Some(0));
+        let n = cas.remove_range(key(lo)..key(hi)).map_err(|e| util::err_chain(&e))?;
+        *c2.lock().unwrap() = (1, None);
+        drop(cas);
+        Ok(n)
+    });
+    IN_PLACE.lock().unwrap().clear();
+    util::rm_rf(&dir);
+    let case = |cut: usize| json!({"engine": "crash", "kind": "many-keys", "nkeys": nkeys, "partial": partial, "cfg": cfg, "cut": cut});
+    match r {
+        Ok(n) if n == hi - lo => {}
+        other => {
+            let mut v = Violation::new(&["C03"], "many-keys-remove-range", format!("remove_range over {} of {nkeys} keys returned {other:?}", hi - lo));
+            v.replay = case(0);
+            return vec![v];
+        }
+    }
+    res.count("histories", 1);
+    let mut seen_imgs: Vec<Vec<(String, usize)>> = Vec::new();
+    for (ci, s) in snaps.iter().enumerate() {
+        if only_cut.map_or(false, |c| c != ci) {
+            continue;
+        }
+        let sig: Vec<(String, usize)> = s.image.files.iter().map(|(k, v)| (k.clone(), v.len())).collect();
+        if seen_imgs.contains(&sig) {
+            continue;
+        }
+        seen_imgs.push(sig);
+        res.count("images", 1);
+        let d2 = util::fresh_dir("manyr");
+        s.image.materialize(&d2);
+        let got = real::open_recover::<String>(&d2, &cfg.config());
+        let finding = match got {
+            Err(e) => Some(("recovery-open-failed/many-keys".to_string(), format!("open after crash failed: {e}"))),
+            Ok((cas, _)) => {
+                let len = cas.read_index_state().len();
+                let full = nkeys;
+                let removed = nkeys - (hi - lo);
+                let ok = if s.acked == 1 { len == removed } else if s.inflight.is_some() { len == full || len == removed } else { len == full };
+                if ok { None } else { Some(("range-removal-not-atomic".to_string(), format!("{len} keys after recovery; a range removal of {} of {nkeys} keys must leave {full} or {removed}", hi - lo))) }
+            }
+        };
+        util::rm_rf(&d2);
+        if let Some((o, d)) = finding {
+            let mut v = Violation::new(&["C03"], &o, format!("[{}] {nkeys} keys sharing one blob, remove_range over {} of them, killed before mutating call #{ci} {}: {d}", cfg.show(), hi - lo, s.call));
+            v.sig = format!("{o}|many-keys");
+            v.replay = case(ci);
+            vs.push(v);
+        }
+    }
+    vs
+}
+
 pub fn run(tier: &str, slice: (u64, u64), seed: u64) -> WorkerResult {
     shim::require();
     let mut res = WorkerResult::new("crash");
+    // one "many keys" range removal per worker (record sizes above 8 KiB / 64 KiB, key counts above 1024 / 4096 ...)
+    {
+        let sizes: Vec<usize> = if tier == "quick" { vec![700, 1100, 2100, 4200] } else { vec![700, 1100, 2100, 4200, 9000, 17000, 33000, 66000] };
+        if let Some(&nk) = sizes.get(slice.0 as usize) {
+            for partial in [false, true] {
+                for v in many_keys_case(nk, partial, &Cfg { n: if nk % 2 == 0 { 10_000 } else { 64 }, async_mode: false }, None, &mut res) {
+                    res.violate(v);
+                }
+            }
+        }
+        if slice.0 == 0 {
+            res.completed.push(format!("range removal over many keys sharing one blob ({sizes:?} keys; whole range and inner 80%): every cut, recovered key count must be all or nothing"));
+        }
+    }
+    // a rename into cas/ answered EXDEV (shard directory on another device): nothing may be written in place under cas/
+    if slice.0 == slice.1 - 1 {
+        use crate::keys::*;
+        let put = |k, c| Op::Put { k, c, ch: 0 };
+        for hist in [vec![put(0, C_X)], vec![put(0, C_X), put(1, C_X)], vec![put(0, C_L), put(0, C_Y)], vec![put(0, C_X), put(0, C_H)]] {
+            for k in 1..=hist.len() as u64 {
+                EXDEV_AT.store(k, std::sync::atomic::Ordering::Relaxed);
+                for v in run_case::<String>(&Cfg { n: 10_000, async_mode: false }, &[], &hist, 0, None, &mut res, false) {
+                    // only the in-place oracle is meaningful here (the injected error is not a crash)
+                    if v.oracle == "cas-written-in-place" {
+                        res.violate(v);
+                    }
+                }
+                EXDEV_AT.store(0, std::sync::atomic::Ordering::Relaxed);
+            }
+        }
+        res.completed.push("rename into cas/ failing with EXDEV at each rename of 4 short histories: no in-place write under cas/ (trace scan)".into());
+    }
     let mut j = 0u64;
     VERIFY_TOO.store(tier != "quick", std::sync::atomic::Ordering::Relaxed);
     // every worker validates the snapshot mechanism on one history of its own before trusting it
@@ -661,6 +806,13 @@ pub fn run(tier: &str, slice: (u64, u64), seed: u64) -> WorkerResult {
 pub fn replay(case: &Value) -> Vec<Violation> {
     shim::require();
     let cfg: Cfg = serde_json::from_value(case["cfg"].clone()).expect("cfg");
+    if case["kind"].as_str() == Some("many-keys") {
+        let mut res = WorkerResult::new("crash");
+        return many_keys_case(case["nkeys"].as_u64().unwrap() as usize, case["partial"].as_bool().unwrap(), &cfg, case["cut"].as_u64().map(|c| c as usize), &mut res);
+    }
+    if let Some(k) = case["exdev_at"].as_u64() {
+        EXDEV_AT.store(k, std::sync::atomic::Ordering::Relaxed);
+    }
     let prefix: Vec<Op> = serde_json::from_value(case["prefix"].clone()).expect("prefix");
     let opsq: Vec<Op> = serde_json::from_value(case["ops"].clone()).expect("ops");
     let cut = case["cut"].as_u64().map(|c| c as usize);
